@@ -117,6 +117,8 @@ class Interp:
         self.glob_cache = {}
         self.quant_collect = None
         self.after_await = None
+        # the literal [] seen as a JSON value: the JSON list with identity -1, of length 0
+        self.assume(z3.Function('jlist_len', z3.IntSort(), z3.IntSort())(z3.IntVal(-1)) == 0)
 
     # -- path control --------------------------------------------------------------------
     @property
@@ -1645,7 +1647,9 @@ class Interp:
                 res = VConst(None)
             for fname, src in c.bind_result.items():
                 res.fields[fname] = self.spec_eval(src, env)
-            env['result'] = res
+            if 'result' not in (c.params or {}):
+                env['result'] = res
+            env['ret'] = res                            # alias, for functions that have a parameter called `result`
             for gname, gk in c.ghost_results.items():
                 env[gname] = gk.fresh(self, gname)      # existential witnesses of the callee's ghost outputs
                 fr.env[gname] = env[gname]              # ... visible to the caller's own ghost code
